@@ -176,9 +176,15 @@ func (s *BadSmellListener) EnterFieldDeclaration(ctx *FieldDeclarationContext) {
 }
 
 func (s *BadSmellListener) EnterLocalVariableDeclaration(ctx *LocalVariableDeclarationContext) {
-	typ := ctx.GetChild(0).(antlr.ParseTree).GetText()
-	variableName := ctx.GetChild(1).GetChild(0).GetChild(0).(antlr.ParseTree).GetText()
-	localVars[variableName] = typ
+	// modifiers (`final`, annotations) may come before the type
+	if ctx.TypeType() == nil || ctx.VariableDeclarators() == nil {
+		return
+	}
+	typ := ctx.TypeType().GetText()
+	for _, declarator := range ctx.VariableDeclarators().(*VariableDeclaratorsContext).AllVariableDeclarator() {
+		variableName := declarator.(*VariableDeclaratorContext).VariableDeclaratorId().GetText()
+		localVars[variableName] = typ
+	}
 }
 
 func (s *BadSmellListener) EnterMethodDeclaration(ctx *MethodDeclarationContext) {
